@@ -499,7 +499,12 @@ func init() { register("L-BACK", ruleLexerBack) }
 
 func ruleLexerBack(c *Ctx) *RuleResult {
 	r := &RuleResult{Doc: "every call of Lexer.back() is preceded, on every path inside its function, by a call of Lexer.next() with no other cursor operation (back, peek) in between; currentPos/lastWidth are written only by next, back and tokenize's reset", Floor: 4}
-	next, back, peek := c.lexerNext(), c.method("Lexer", "back"), c.method("Lexer", "peek")
+	next, back, peek := c.lexerPrims()
+	if back == nil {
+		r.Instances++
+		r.ok("no-pushback", c.pos(c.A.Tokenize.Pos()), "", "the lexer has no push-back primitive: nothing to misuse")
+		return r
+	}
 	for _, fn := range allFuncs(c.SLib) {
 		n := 0
 		for _, b := range fn.Blocks {
